@@ -396,7 +396,12 @@ class Machine:
                 raise EncoderGap('downcast %s of %r' % (p[1], v))
             return v
         if k == 'elem':
-            return v.elem(p[1])
+            if isinstance(v, tuple):
+                return v[p[1]]
+            if hasattr(v, 'elem'):
+                return v.elem(p[1])
+            from .models_std import seq_view
+            return seq_view(self, v)[0](p[1])
         if k == 'deref':
             return self.load(v)
         raise EncoderGap('projection %r' % (p,))
